@@ -259,7 +259,7 @@ func workerRun(t *testing.T, job Job, sum *Summary) {
 			sum.Samples = append(sum.Samples, sample(spec, v))
 		}
 		// determinism: re-run a few of this worker's runs and compare log hashes
-		if mine%97 == 5 && sum.DetChecked < 8 {
+		if mine%37 == 5 && sum.DetChecked < 30 {
 			v2 := exec1(t, specWithChoices(spec, v))
 			sum.DetChecked++
 			if v2.LogHash != v.LogHash || v2.Sig != v.Sig {
